@@ -130,13 +130,15 @@ PLAN = {
     ),
     "C12": dict(
         title="validate and predict_batch are faithful aggregations of predict",
-        level="model_checking",
-        verus=[],
+        level="proof",
+        verus=["C12_validate.rs", "C17_network_forward.rs"],
         kani=True,
-        undecided_clauses=["the chunk size is a parameter of the slice (instances: 64 with 2 samples, 2 with 3 samples = one full + one short chunk); "
-                           "the code's value 64 with more than 64 samples is not executed; rayon's order-preserving collect is assumed",
-                           "predict = last activation of forward: read (two lines), not verified",
-                           "more than 3 samples / more than 2 outputs"],
+        undecided_clauses=["the iterator pipelines (`par_chunks(..).zip(..).flat_map(|..| ..iter().zip(..).map(..).collect()).collect()`, `unzip`, `zip().map().sum()`) are "
+                           "rewritten mechanically to index loops (R31-R35): that rayon's / std's adapters visit the elements in that order is assumed; the bounded Kani "
+                           "slices execute the real adapters (std in the mirror) on 2-3 samples across a chunk boundary",
+                           "`predict`, the objective, `argmax`, `get_flat` are abstract in the validate unit; predict = last activation of the verified forward pass is unit network.predict",
+                           "inputs and targets of equal length, every prediction as wide as its target (otherwise the code may panic or truncate: not claimed)",
+                           "the flag prologue / epilogue of validate are assumed contracts here (C09's Kani regions)"],
     ),
     "C13": dict(
         title="Early stopping and the returned histories obey their contract",
@@ -331,15 +333,15 @@ MANIFEST_TEXT = {
              "a panic (shape assertion, nested block) is a permitted outcome (R13).",
     ),
     "C12": dict(
-        category="model_checking",
-        technique="Kani bounded model checking of mechanical slices of validate() / predict_batch() with predict and the objective as oracles",
+        category="proof",
+        technique="Verus contracts on the WHOLE validate(), predict_batch() and predict() (iterator pipelines rewritten mechanically to index loops) + bounded Kani slices that execute the real adapters",
         design_ref="DESIGN.md §5 C12",
-        text="Bounded: validate() is sliced mechanically (flag loops dropped, self.predict / self.objective.loss replaced by oracles); the "
-             "remaining pairing pipeline, accuracy rule and aggregation run verbatim in CBMC on 2-3 samples with symbolic predictions, targets "
-             "and per-sample losses: the result is the arithmetic mean of the per-sample losses and of the per-sample accuracies (arg-max "
-             "agreement for a soft-max output layer, else the fraction of components within the tolerance), every prediction paired with its own "
-             "target, in input order. predict_batch likewise (thorough tier).",
-        note="bounded in sample count and output width; chunk boundary (64) not crossed; oracles stand for predict and the objective.",
+        text="Proof for all data-set sizes, all tolerances and every parallel chunk size (the constant is opaque): the whole validate() returns (in-order sum of the per-sample "
+             "objective losses of predict / N, in-order sum of the per-sample accuracies / N) of the network with all training flags cleared, where a sample's accuracy is arg-max "
+             "agreement for a soft-max output layer and otherwise (number of components with |t - p| < tol) / width; every sample is scored exactly once, in input order, and the "
+             "flags are restored. predict_batch returns predict of each input in input order; predict is the last activation of the verified forward pass. "
+             "Bounded (Kani): slices of validate / predict_batch with the real std adapters on 2-3 samples across a chunk boundary.",
+        note="iterator adapters rewritten (R31-R35) under the assumption that they visit elements in order; predict / objective / argmax / get_flat abstract; flag regions assumed (C09).",
     ),
     "C13": dict(
         category="proof",
